@@ -806,6 +806,7 @@ impl<'a> Runtime<'a> {
 
         // Parameters live in their own lexical scope so block locals can shadow them.
         let param_ids = self.bound_param_ids(func_def.id, func_def.params);
+        let has_frame = self.has_frame_arena();
         self.push_scope_with_capacity(func_def.params.params.len(), self.frame);
         let param_scope =
             self.env.last_mut().expect("Parameter scope should exist immediately after push");
@@ -815,6 +816,11 @@ impl<'a> Runtime<'a> {
             let arg = match arg {
                 Value::Str(ArenaCow::Borrowed(s)) if self.pool.contains(s.as_ptr()) => {
                     Value::Str(ArenaCow::Owned(self.pool.alloc_str(s)))
+                }
+                // A parameter array or command can grow inside a loop of the callee. Its
+                // storage must not sit in frame memory that the loop resets per iteration.
+                arg @ (Value::Array(_) | Value::Host(_)) if has_frame => {
+                    arg.promote(&self.pool, self.frame)
                 }
                 other => other,
             };
